@@ -78,8 +78,10 @@ type deferred struct {
 
 // the call log of the function under verification
 type callResult struct {
-	V Val
-	T types.Type
+	V    Val
+	T    types.Type
+	Args []Val          // receiver first
+	ArgT []types.Type
 }
 
 // a loop cut at its invariant: the callees named in its body ran an unknown number of times in the iterations that are
@@ -88,6 +90,12 @@ type cutLoop struct {
 	Head  *ssa.BasicBlock
 	Pos   int // len(calls) when the head was passed
 	Names []string
+}
+
+// where the pass through a loop body that is under execution started: position in the call log, and how many loops had
+// been cut by then (loops cut LATER lie inside this pass: their hidden iterations count for it)
+type iterMark struct {
+	Pos, Cuts int
 }
 
 type State struct {
@@ -105,7 +113,7 @@ type State struct {
 	calls   []string        // names of the callees called so far on this path (for ncalls(...) in specs)
 	callRes []callResult    // parallel to calls: the value the call returned on this path (nil until it returned)
 	cutLoops []cutLoop      // loops cut at their invariant so far: callees that may have run an unknown number of times
-	iterMark map[*ssa.BasicBlock]int // loop head -> len(calls) when the iteration under execution started
+	iterMark map[*ssa.BasicBlock]iterMark // loop head -> where the iteration under execution started
 	tagOf   map[string]int  // dynamic type decided on this path for an interface value's tag term (closed-interface dispatch)
 	private map[string]bool // objects allocated by this execution whose address has not escaped (unknown callees cannot touch them)
 }
@@ -142,7 +150,7 @@ func (s *State) clone() *State {
 	n.callRes = append([]callResult{}, s.callRes...)
 	n.cutLoops = append([]cutLoop{}, s.cutLoops...)
 	if s.iterMark != nil {
-		n.iterMark = map[*ssa.BasicBlock]int{}
+		n.iterMark = map[*ssa.BasicBlock]iterMark{}
 		for k, v := range s.iterMark {
 			n.iterMark[k] = v
 		}
